@@ -246,6 +246,57 @@ def _inverse_eps(fn):
     return found[0]
 
 
+def _returns_self(fn):
+    body = [b for b in fn.body if not _is_doc(b)]
+    return len(body) == 1 and isinstance(body[0], ast.Return) and ast.unparse(body[0].value) == 'self'
+
+
+def _fmat_product_fresh(tree, mb):
+    """Does MatrixBase.__matmul__/__rmatmul__ multiply into an object that is never a frozen operand?
+    Every `X._mat_mul(...)` receiver in the two methods must be a local assigned from
+    `<obj>._fresh_copy()` (a helper that builds a new object with _from_raw / __new__),
+    `Py_Matrix.from_angle(...)`, or `<obj>.copy()` — the last one is fresh only if no matrix class
+    has a copy() that returns self."""
+    def cls(name):
+        c = next((n for n in tree.body if isinstance(n, ast.ClassDef) and n.name == name), None)
+        if c is None:
+            raise ExtractError(f'class {name} not found')
+        return c
+    copy_is_self = any(_returns_self(f) for c in ('FrozenMatrix', 'Matrix')
+                       for f in cls(c).body if isinstance(f, ast.FunctionDef) and f.name == 'copy')
+    helper_fresh = None
+    hf = [n for n in mb.body if isinstance(n, ast.FunctionDef) and n.name == '_fresh_copy']
+    if hf:
+        src = ast.unparse(hf[-1])
+        helper_fresh = ('_from_raw(' in src or '__new__(' in src) and not _returns_self(hf[-1])
+    fresh = True
+    for meth in ('__matmul__', '__rmatmul__'):
+        fn = _method(mb, meth)
+        assigns = {}
+        for n in ast.walk(fn):
+            if isinstance(n, ast.Assign) and len(n.targets) == 1 and isinstance(n.targets[0], ast.Name):
+                assigns.setdefault(n.targets[0].id, []).append(ast.unparse(n.value))
+        recv = [n.func.value for n in ast.walk(fn) if isinstance(n, ast.Call) and isinstance(n.func, ast.Attribute)
+                and n.func.attr == '_mat_mul']
+        if not recv:
+            raise ExtractError(f'MatrixBase.{meth}: no _mat_mul call')
+        for r in recv:
+            if not isinstance(r, ast.Name) or r.id not in assigns:
+                raise ExtractError(f'MatrixBase.{meth}: _mat_mul receiver {ast.unparse(r)} is not a local')
+            for v in assigns[r.id]:
+                if v.endswith('._fresh_copy()'):
+                    if helper_fresh is None:
+                        raise ExtractError('_fresh_copy is called but not defined in MatrixBase')
+                    fresh = fresh and helper_fresh
+                elif v.startswith('Py_Matrix.from_angle('):
+                    pass
+                elif v.endswith('.copy()'):
+                    fresh = fresh and not copy_is_self
+                else:
+                    raise ExtractError(f'MatrixBase.{meth}: cannot classify `{r.id} = {v[:50]}`')
+    return fresh
+
+
 def generate(repo):
     src = (repo / 'src/srctools/math.py').read_text(encoding='utf-8')
     tree = ast.parse(src)
@@ -279,6 +330,7 @@ def generate(repo):
     tr = _mat_literal(straight('transpose', Sym, {'self': 'm'}), 'rot', 'transpose')
     horiz, thr, pairs = _to_angle(_method(mb, '_to_angle'))
     eps = _inverse_eps(_method(mb, 'inverse'))
+    fresh = _fmat_product_fresh(tree, mb)
 
     L = ['import Srctools.Model.C04',
          '/-! GENERATED by tools/gen_rot.py from src/srctools/math.py — do not edit. -/',
@@ -310,6 +362,8 @@ def generate(repo):
          f'def thr : Rat := mkRat {thr.numerator} {thr.denominator}',
          f'/-- the literal of `abs(v) <= …` in inverse() as the exact value of the double ({float(eps)!r}) -/',
          f'def eps : Rat := mkRat {eps.numerator} {eps.denominator}',
+         '/-- MatrixBase.__matmul__/__rmatmul__ multiply into a new object, never into a (frozen) operand -/',
+         f'def fmatProductFresh : Bool := {"true" if fresh else "false"}',
          '',
          'end Gen.Rot']
     return '\n'.join(L) + '\n'
